@@ -172,6 +172,25 @@ func classOf(v any) string {
 	return fmt.Sprintf("%T", v)
 }
 
+// scramble changes a read-back composite value in place (what a careless reader might do): a
+// value handed out by the store belongs to the reader, later reads are not affected.
+func scramble(v any) bool {
+	switch x := v.(type) {
+	case map[string]any:
+		for k := range x {
+			x[k] = "scrambled"
+		}
+		x["added-by-reader"] = 1
+		return true
+	case []any:
+		for i := range x {
+			x[i] = "scrambled"
+		}
+		return len(x) > 0
+	}
+	return false
+}
+
 func protect(f func()) (panicked string) {
 	defer func() {
 		if r := recover(); r != nil {
@@ -209,6 +228,13 @@ func checkRow(sc ValueScenario, res *ValueResult) {
 			continue
 		}
 		if sc.Same == "yes" {
+			if scramble(got) {
+				var again any
+				if p := protect(func() { again = val.Value() }); p == "" && !reflect.DeepEqual(again, canon(v)) {
+					res.Mismatches = append(res.Mismatches, fmt.Sprintf("decl=%s kind=%s value=%#v: a reader changed the value it had read; the next read gives %#v", sc.Decl, sc.Kind, v, again))
+				}
+				got = canon(v)
+			}
 			want := canon(v)
 			g := got
 			if n, ok := g.(int); ok {
@@ -431,6 +457,11 @@ func storeRun(sc ValueScenario, res *ValueResult) {
 				}
 				if g, w := it.Value(), canon(concrete[want]); !sameStored(g, w) {
 					res.Mismatches = append(res.Mismatches, fmt.Sprintf("store step %d: instance %d %s = %#v, want %#v", si, ii+1, name, g, w))
+				} else if scramble(g) {
+					// the reader owns what it read: the store still holds the value
+					if v2, ok := insts[ii].Locator().GetVariable(name); !ok || !sameStored(v2, w) {
+						res.Mismatches = append(res.Mismatches, fmt.Sprintf("store step %d: instance %d %s: a reader changed the value it had read; the store now gives %#v, want %#v", si, ii+1, name, v2, w))
+					}
 				}
 				// the item type is the one the value has as an item of its own, whichever way
 				// (raw, ready-made item, merge, shared start variable) it reached the store
